@@ -63,7 +63,7 @@ def run(ctx):
     ctx.exhaustive = True
 
     # ---- code -> spec: seeded grammar driver, validated by Trace_Rule ----
-    n = 20000 if quick else 300000
+    n = 20000 if quick else 1000000
     trace = os.path.join(ctx.work, "rule-trace.ndjson")
     d = ctx.vh(["drive-rule", "n=%d" % n, "out=" + trace])
     if d["panics"]:
